@@ -37,6 +37,11 @@ def report(chk, cfg, ops, res, source):
 
 
 CORPUS = [
+    # custom metadata survives a second memoize of its call; keys that are prefixes of one another are separate keys
+    [["memoize", 1, 1, None, 1], ["wmeta", 1, 1, 1, 7], ["wmeta", 1, 1, 2, 8], ["memoize", 1, 1, None, 2], ["rmeta", 1, 1, 1], ["rmeta", 1, 1, 2],
+     ["wmeta", 1, 1, 2, 9], ["rmeta", 1, 1, 1], ["rmeta", 1, 1, 2]],
+    [["memoize", 1, 1, None, 1], ["wmeta", 1, 1, 2, 8], ["wmeta", 1, 1, 3, 5], ["wmeta", 1, 1, 1, 7], ["rmeta", 1, 1, 2], ["rmeta", 1, 1, 3], ["rmeta", 1, 1, 1],
+     ["wmeta", 1, 1, 3, 6], ["wmeta", 1, 1, 1, 4], ["rmeta", 1, 1, 2], ["rmeta", 1, 1, 3]],
     # f#1 / f#10 / f#1x: forgetting one function must not touch its string-prefix siblings
     [["memoize", 1, 1, None, 1], ["memoize", 2, 1, None, 2], ["memoize", 3, 1, None, 3], ["ffn", 1],
      ["lookread", 2, 1], ["lookread", 3, 1], ["lsf"], ["lsm", 2]],
@@ -116,7 +121,8 @@ def main(chk, replay=None):
         run_all(ops, "corpus")
     for i in range(nhist):
         few = rng.random() < 0.5
-        ops = sw.gen_ops(rng, rng.randint(4, maxlen), fns=[1, 2, 4] if few else None, part_rate=0.3 if i % 5 == 4 else 0.0)
+        ops = sw.gen_ops(rng, rng.randint(4, maxlen), fns=[1, 2, 4] if few else None, part_rate=0.3 if i % 5 == 4 else 0.0,
+                         meta_rate=0.35 if i % 5 == 2 else 0.0)
         run_all(ops, "random")
         if failures > 3 or mismatches > 6:
             break
